@@ -12,7 +12,7 @@ class G:
     """Grammar: ordered rules {name: exp}; settings."""
     def __init__(self, rules, *, whitespace='default', nameguard=None, ignorecase=False,
                  namechars='', comments=None, eol_comments=None, keywords=(), name_rules=(),
-                 lrec=True, leaders=None):
+                 lrec=True, leaders=None, rule_params=None):
         self.rules = dict(rules)
         self.order = [n for n, _ in rules]
         if whitespace == 'default':
@@ -31,6 +31,7 @@ class G:
         self.keywords = {k.upper() for k in keywords} if ignorecase else set(keywords)
         self.name_rules = set(name_rules)
         self.lrec = lrec
+        self.rule_params = dict(rule_params or {})   # name -> (positional params, keyword params)
         # quirk switch (known finding F15): seed growing only at these statically chosen rules instead of at whichever rule of the
         # cycle is entered first
         self.leaders = set(leaders) if leaders is not None else None
@@ -121,6 +122,10 @@ class Fail(Exception):
         self.committed = committed
 
 
+class SemanticFailure(Fail):
+    """raised by an action hook: the invocation fails like a syntax mismatch"""
+
+
 def add_single(env, name, v):
     if name not in env or env[name] is None:
         env[name] = v
@@ -151,8 +156,9 @@ def items_value(items):
 OV = '@'
 
 class Ref:
-    def __init__(self, g: G, text: str):
+    def __init__(self, g: G, text: str, actions=None):
         self.g = g
+        self.actions = actions   # semantic actions: callable(rule_name, ast, params, kwparams) -> value ; may raise
         self.t = text
         self.n = len(text)
         self.seeds = {}      # (rule, pos) -> result for left recursion
@@ -416,6 +422,9 @@ class Ref:
             if name in self.g.name_rules:
                 ks = str(v).upper() if self.g.ignorecase else str(v)
                 if ks in self.g.keywords: raise Fail(False)
+            if self.actions is not None:
+                ps, kws = self.g.rule_params.get(name, ((), {}))
+                v = self.actions(name, v, ps, kws)     # SemanticFailure -> Fail ; anything else propagates
             return q, v
         finally:
             self.depth -= 1
